@@ -4,6 +4,7 @@ from .core import FLAVOURS, DIRECTED, UNDIRECTED, SYNC, PLAIN
 from . import rules_kernel as rk, dispatch as dp, rules_guard as rg, rules_edge as re_, rules_bt as rb, rules_misc as rm, rules_c16 as r16, rules_own as ro, rules_container as rc, rules_serde as rs, rules_scc as rscc, rules_sib as rsib, rules_mac as rmac
 
 ALLF = ('Bfs', 'Dfs', 'Pfs', 'Order')
+BT5 = ('BT', 'BT-wrap', 'BT-seed', 'BT-scan', 'BT-join', 'BT-rev')   # BT-disjoint (closing edge not joined to itself) matters to cycle searches only: C09
 DISC6 = ('DISC', 'DISC-i', 'DISC-ii', 'DISC-iii', 'DISC-iv', 'DISC-v', 'DISC-vi')   # DISC-vii (live iteration) is C20's clause
 HERE = os.path.dirname(os.path.abspath(__file__))
 
@@ -85,7 +86,7 @@ PROPS['C20'] = dict(
     assumptions=STD,
 )
 PROPS['C04'] = dict(
-    rules=kernel_pack(('Bfs',), FLAVOURS, 'path') + [_r('RESMAP', dp.result_map, FLAVOURS, ('Bfs',), 'path'), _r('TR1', dp.tr1, DIRECTED, ('Bfs',), 'path'), _r('METHOD', rk.method, FLAVOURS), _r('BT', rb.bt, FLAVOURS), _r('PATH', rb.path_api, FLAVOURS)],
+    rules=kernel_pack(('Bfs',), FLAVOURS, 'path') + [_r('RESMAP', dp.result_map, FLAVOURS, ('Bfs',), 'path'), _r('TR1', dp.tr1, DIRECTED, ('Bfs',), 'path'), _r('METHOD', rk.method, FLAVOURS), _r('BT', rb.bt, FLAVOURS, only=BT5), _r('PATH', rb.path_api, FLAVOURS)],
     explanation='Breadth-first kernels (12) and their entry points: FIFO frontier (BFS1), discovery discipline (DISC i-vii), exhaustive expansion (EXH), '
                 'callback-first (EXEC1), orientation (TR0/TR1), seeding (INIT), result mapping (RESMAP), back-tracking (BT) decided on MIR by dominance and provenance.',
     decides='the structural premises of the textbook BFS argument on every path of every kernel and entry point',
@@ -94,7 +95,7 @@ PROPS['C04'] = dict(
 )
 
 PROPS['C05'] = dict(
-    rules=kernel_pack(('Dfs',), FLAVOURS, 'path') + [_r('RESMAP', dp.result_map, FLAVOURS, ('Dfs',), 'path'), _r('TR1', dp.tr1, DIRECTED, ('Dfs',), 'path'), _r('METHOD', rk.method, FLAVOURS), _r('BT', rb.bt, FLAVOURS), _r('PATH', rb.path_api, FLAVOURS)],
+    rules=kernel_pack(('Dfs',), FLAVOURS, 'path') + [_r('RESMAP', dp.result_map, FLAVOURS, ('Dfs',), 'path'), _r('TR1', dp.tr1, DIRECTED, ('Dfs',), 'path'), _r('METHOD', rk.method, FLAVOURS), _r('BT', rb.bt, FLAVOURS, only=BT5), _r('PATH', rb.path_api, FLAVOURS)],
     explanation='Depth-first kernels (12 recursive) and entries: LIFO frontier with push(FAR) immediately followed by the recursive call (DFS1), discovery discipline (DISC), no early exit and '
                 'found-propagation (EXH), callback-first (EXEC1), orientation, seeding, result mapping and back-tracking (BT).',
     decides='the structural premises of "DFS finds a simple path iff reachable" on every path of every kernel',
@@ -103,7 +104,7 @@ PROPS['C05'] = dict(
 )
 PROPS['C06'] = dict(
     rules=kernel_pack(('Pfs',), FLAVOURS, 'path') + [_r('PFS1', dp.pfs1, FLAVOURS, 'path'), _r('RESMAP', dp.result_map, FLAVOURS, ('Pfs',), 'path'), _r('TR1', dp.tr1, DIRECTED, ('Pfs',), 'path'),
-                                           _r('METHOD', rk.method, FLAVOURS), _r('BT', rb.bt, FLAVOURS), _r('PATH', rb.path_api, FLAVOURS), _r('ORD-NODE', rm.ord_node, FLAVOURS), _r('PFS-SEARCH', rm.pfs_search, FLAVOURS)],
+                                           _r('METHOD', rk.method, FLAVOURS), _r('BT', rb.bt, FLAVOURS, only=BT5), _r('PATH', rb.path_api, FLAVOURS), _r('ORD-NODE', rm.ord_node, FLAVOURS), _r('PFS-SEARCH', rm.pfs_search, FLAVOURS)],
     explanation='Priority-first kernels (12) and entries: BinaryHeap pop/push with Reverse exactly on the Min arms (PFS-FRONT, PFS1), discovery discipline incl. closing edge recorded before '
                 'FOUND (DISC iv/v), no early exit, node ordering by value identically through Ord and PartialOrd and equality by key (ORD-NODE), search = last node of search_path.',
     decides='heap discipline, Min/Max dispatch, comparison impls, discovery discipline',
